@@ -196,3 +196,25 @@ func checkDecompressedLength(decompressedLen int, payloadSizeUncompressed uint64
 	}
 	return nil
 }
+
+// maxExpansionRatio bounds how much larger than its compressed form a payload can be: none of the supported codecs
+// gets near it (deflate stays below 1100:1, 12 bit LZW below 2800:1).
+const maxExpansionRatio = 4096
+
+// checkRecordSizes rejects a pair of payload sizes that no writer produces: in a file without compression the
+// compressed size is always zero, and with compression the expansion is bounded. The header checksum does not make
+// this superfluous: it can't cover its own bytes, so an altered size varint that swallows it moves the "checksum" into the
+// payload; and the random access reader parses a header wherever it sees the marker, also inside a payload.
+func checkRecordSizes(header *Header, payloadSizeUncompressed uint64, payloadSizeCompressed uint64) error {
+	if header.compressor == nil {
+		if payloadSizeCompressed != 0 {
+			return fmt.Errorf("%w: compressed size %d in a file without compression", HeaderChecksumMismatchErr, payloadSizeCompressed)
+		}
+		return nil
+	}
+
+	if payloadSizeUncompressed/maxExpansionRatio > payloadSizeCompressed {
+		return fmt.Errorf("%w: %d bytes can't decompress to %d", HeaderChecksumMismatchErr, payloadSizeCompressed, payloadSizeUncompressed)
+	}
+	return nil
+}
